@@ -59,8 +59,9 @@ func writeUnionClasses(fw *common.MatlabFileWriter, td dsl.TypeDefinition, union
 			if node.Cases.IsUnion() {
 				unionClassName := common.UnionClassName(node)
 				if !unionGenerated[unionClassName] {
-					if _, isNamedType := td.(*dsl.NamedType); isNamedType {
+					if namedType, isNamedType := td.(*dsl.NamedType); isNamedType && namedType.Type == dsl.Type(node) {
 						// This is a named type defining a union, so we will use the named type's name instead
+						// (a union nested deeper inside the named type keeps its own class)
 						unionClassName = td.GetDefinitionMeta().Name
 					}
 					writeError = fw.WriteFile(unionClassName, func(w *formatting.IndentedWriter) {
